@@ -141,6 +141,7 @@ PROJECTIONS = {
     "non-monotone": lambda e, n: ((e - 1.0) ** 2 + n, np.sin(n) + 0.1 * e),
     "rotation": lambda e, n: (0.6 * e - 0.8 * n, 0.8 * e + 0.6 * n),
     "interior-extremum": lambda e, n: (e ** 2 + n ** 2, n - 0.5 * e * e),
+    "squares": lambda e, n: (n ** 2 + 0.001 * e, e ** 2 + 0.001 * n),
 }
 
 
@@ -220,6 +221,8 @@ def generate(tier, seed):
     # project_region
     pregs = [(3.0, 5.0, -9.0, -4.0), (-1.0, 1.0, -1.0, 1.0)] if tier == "quick" else \
         [(3.0, 5.0, -9.0, -4.0), (-1.0, 1.0, -1.0, 1.0), (-2.0, 2.5, -1.0, 1.0), (0.0, 1.0, 0.0, 1.0), (-60.0, -40.0, -30.0, 10.0)]
+    # strongly elongated regions: both axes must still be sampled with 101 nodes (an extremum along the SHORT side counts)
+    pregs = pregs + [(0.0, 1000.0, -1.0, 1.0), (-1.0, 1.0, 0.0, 1000.0)] + ([] if tier == "quick" else [(-180.0, 180.0, -1.0, 1.0), (0.0, 5000.0, -0.5, 2.0)])
     for reg in pregs:
         for name, fn in PROJECTIONS.items():
             cases.append(core.guarded(lambda: project_case(vd, reg, name, fn, "project_region"), {"fn": "project_case"}, "project_case"))
@@ -235,6 +238,7 @@ def generate(tier, seed):
     cases.append(core.guarded(lambda: maxabs_case(vd, [[-3.0, -2.0], [1.0]], "maxabs"), {"fn": "maxabs_case"}, "maxabs_case"))
     # invalid / valid regions through every entry point
     for reg in [(5.0, 0.0, 0.0, 1.0), (0.0, 1.0, 2.0, 1.0), (0.0, 1.0, 0.0), (0.0, 1.0, 0.0, 1.0, 2.0), (1.0, 1.0, 1.0, 1.0),
+                (0.0, 10.0, -5.0, 5.0, -1000.0, 0.0), (0.0, 1.0, 0.0, 1.0, 0.0, 1.0, 0.0, 1.0), (0.0, 1.0), (),
                 (0.0, 1.0, 0.0, 1.0), (1.0 + 2 ** -52, 1.0, 0.0, 1.0), (0.0, 1.0, -1.0, -1.0 - 2 ** -52)]:
         for how in ("check_region", "inside", "grid_coordinates", "scatter_points"):
             if how in ("grid_coordinates", "scatter_points") and len(reg) != 4:
